@@ -7,4 +7,7 @@ mkdir -p out evidence
 python3 -c "import vt.cli"
 verus --version >/dev/null
 ( cd replay && CARGO_NET_OFFLINE=true CARGO_TARGET_DIR=/verif/out/replay-target RUSTFLAGS="--cfg simfony_verif" cargo build --release --offline 2>&1 | tail -2 )
+# warm the Kani build of the dependency tree (the harness of C06 / C11 runs in the quick tier); failure here is not fatal:
+# the check builds what is missing itself
+( cd kani && CARGO_NET_OFFLINE=true CARGO_TARGET_DIR=/verif/out/kani-target timeout 900 cargo kani --only-codegen >/dev/null 2>&1 || true )
 echo setup ok
